@@ -32,6 +32,7 @@ type funcNames struct {
 	Results []string    `json:"results,omitempty"`
 	Outer   []string    `json:"outer,omitempty"` // for a function literal's contract: the enclosing function's parameters (captured)
 	Sites   map[string][]string `json:"sites,omitempty"` // callee text with site-keyed clauses -> assignment target of each call, in source order
+	Depth   []int             `json:"depth,omitempty"` // per local: number of loops whose body encloses its declaration
 	Loops   []string          `json:"loops,omitempty"` // per loop ordinal (outside function literals): what the loop ranges over / its condition
 	LoopSeq map[string]string `json:"-"` // current run: loop ordinal -> the slice the loop walks over (ranged expression, or x of `i < len(x)`)
 	LocalPos []int      `json:"-"` // declaration position of each local (current run only)
@@ -127,6 +128,16 @@ func namesOfDecl(p *packages.Package, d *ast.FuncDecl) funcNames {
 		locs = append(locs, loc{o.Pos(), o.Name(), typeStr(o.Type()), inits[id], o})
 		return true
 	})
+	var loopBodies [][2]int
+	ast.Inspect(d.Body, func(n ast.Node) bool {
+		switch st := n.(type) {
+		case *ast.ForStmt:
+			loopBodies = append(loopBodies, [2]int{int(st.Body.Pos()), int(st.Body.End())})
+		case *ast.RangeStmt:
+			loopBodies = append(loopBodies, [2]int{int(st.Body.Pos()), int(st.Body.End())})
+		}
+		return true
+	})
 	seenCallee := map[string]bool{}
 	ast.Inspect(d.Body, func(n ast.Node) bool {
 		if c, ok := n.(*ast.CallExpr); ok {
@@ -146,6 +157,13 @@ func namesOfDecl(p *packages.Package, d *ast.FuncDecl) funcNames {
 	for _, l := range locs {
 		fn.Locals = append(fn.Locals, [4]string{l.name, l.typ, l.init, roles[l.obj]})
 		fn.LocalPos = append(fn.LocalPos, int(l.pos))
+		dep := 0
+		for _, lb := range loopBodies {
+			if lb[0] <= int(l.pos) && int(l.pos) < lb[1] {
+				dep++
+			}
+		}
+		fn.Depth = append(fn.Depth, dep)
 	}
 	return fn
 }
@@ -556,10 +574,37 @@ func renamesFor(rec, cur funcNames) map[string]string {
 					}
 				}
 				if sameName == 1 {
-					for k, i2 := range olds {
-						if i2 == i {
-							cands = []int{cands[k]}
+					// pair declarations at the same loop depth first (a per-iteration temporary stays one), then the rest,
+					// each in source order
+					pair := map[int]int{}
+					usedC := map[int]bool{}
+					depthOf := func(fn funcNames, k int) int {
+						if k < len(fn.Depth) {
+							return fn.Depth[k]
 						}
+						return -1
+					}
+					for _, i2 := range olds {
+						for _, j2 := range cands {
+							if !usedC[j2] && depthOf(rec, i2) == depthOf(cur, j2) && depthOf(rec, i2) >= 0 {
+								pair[i2], usedC[j2] = j2, true
+								break
+							}
+						}
+					}
+					for _, i2 := range olds {
+						if _, ok := pair[i2]; ok {
+							continue
+						}
+						for _, j2 := range cands {
+							if !usedC[j2] {
+								pair[i2], usedC[j2] = j2, true
+								break
+							}
+						}
+					}
+					if j2, ok := pair[i]; ok {
+						cands = []int{j2}
 					}
 				}
 			}
